@@ -603,6 +603,10 @@ def compare(case, r: RealRun, reply):
         return out
     loose_names = {p['name'] for p in case.get('props', []) if eff_unit(p['name'], p['unit']) == 'scaled'} \
         if k == 'sys' else set()
+    if k == 'sys':
+        # a box-scaled property is read back through the re-read box, whose lengths are the written ones times
+        # the box unit's factor ratio: the absolute rounding error scales with it
+        loose = (loose[0], loose[1] * max(1.0, float(_ratio(r, case['box_unit']))))
     if k == 'uc':
         same_arr(r.read, m['read'], TOL, 'read', out)
     elif k == 'box':
